@@ -217,6 +217,8 @@ for lx, ly in ((1, 1), (1, 2), (2, 1), (2, 2)):
     K("c12_long_mul_%dx%d" % (lx, ly), "bigint", C12P, "long_mul(x,y): value == val(x)*val(y), normalised (scalar_mul by contract over an uninterpreted commutative product)", [BI + "long_mul"], strength="bounded", bound="x of %d, y of %d limbs" % (lx, ly), features=BOTH_VEC, zflags=("stubbing",), timeout=1200, tier="quick" if (lx, ly) == (1, 1) else "thorough")
     K("c12_large_mul_%dx%d" % (lx, ly), "bigint", C12P, "large_mul(x,y): value' = value*val(y) (one-limb y via small_mul, otherwise long_mul(y,x))", [BI + "large_mul"], strength="bounded", bound="x of %d, y of %d limbs" % (lx, ly), features=BOTH_VEC, zflags=("stubbing",), timeout=1200, tier="quick" if (lx, ly) in ((1, 1), (2, 1)) else "thorough")
 K("c12_mul_assign_wrappers", "bigint", C12P, "Bigint *= &Bigint and VecType *= &[Limb] (one-limb operands): value' = value * val(rhs)", ["bigint::Bigint::mul_assign", "stackvec::StackVec::mul_assign / heapvec::HeapVec::mul_assign"], strength="bounded", bound="one-limb operands", features=BOTH_VEC, zflags=("stubbing",), timeout=900)
+for lx, ly in ((1, 3), (3, 1)):
+    K("c12_long_mul_%dx%d" % (lx, ly), "bigint", C12P, "long_mul(x,y): value == val(x)*val(y), normalised (scalar_mul by contract over an uninterpreted commutative product)", [BI + "long_mul"], strength="bounded", bound="x of %d, y of %d limbs" % (lx, ly), features=["default"], zflags=("stubbing",), timeout=2400, tier="thorough")
 K("c12_shl_bits", "bigint", C12P, "shl_bits(x,n), 1<=n<=63: value' = value*2^n", [BI + "shl_bits"], strength="bounded", bound="x <= 3 limbs", features=BOTH_VEC)
 for ln in range(4):
     K("c12_shl_limbs_len%d" % ln, "bigint", C12P + ["C08", "C16"], "shl_limbs(x,n): None iff n+len > 62 (contents unchanged); else limbs moved up by n, zero filled", [BI + "shl_limbs"], strength="bounded", bound="x of %d limbs, n in {1, 17, capacity edge -1/0/+1, 70}" % ln, features=["default", "compact"], timeout=900, tier="quick" if ln in (0, 2) else "thorough")
